@@ -119,10 +119,20 @@ func (c *Ctx) Count(name string) { c.Counters[name]++ }
 
 func (c *Ctx) Add(name string, n int64) { c.Counters[name] += n }
 
-// Nontrivial registers a non-trivial case by the hash of its canonical form.
-func (c *Ctx) Nontrivial(h uint64) { c.Distinct[h] = struct{}{} }
+// MaxDistinctPerChild bounds the per-child set of non-trivial case hashes (memory); beyond it further cases are not
+// recorded, so the reported distinct_nontrivial becomes a LOWER bound (the evidence file says when that happened).
+const MaxDistinctPerChild = 1500000
 
-func (c *Ctx) NontrivialStr(s string) { c.Distinct[HashStr(s)] = struct{}{} }
+// Nontrivial registers a non-trivial case by the hash of its canonical form.
+func (c *Ctx) Nontrivial(h uint64) {
+	if len(c.Distinct) >= MaxDistinctPerChild {
+		c.Counters["distinct-set-capped"]++
+		return
+	}
+	c.Distinct[h] = struct{}{}
+}
+
+func (c *Ctx) NontrivialStr(s string) { c.Nontrivial(HashStr(s)) }
 
 // Sample keeps the first few concrete cases for the evidence file.
 func (c *Ctx) Sample(v any) {
